@@ -1,5 +1,6 @@
 import MlModel.Lemmas.Registry
 import MlModel.Lemmas.OwnerExit
+import MlModel.Lemmas.OwnerEnv
 /-!
 # C20 — worker liveness and ownership bookkeeping stays consistent
 
@@ -221,12 +222,14 @@ theorem C20_released_on_exit_every_liveness (pw : Owner.Pid → List Owner.Wid) 
   intro c hidle hex
   exact C20_released_on_exit pw p t c0 c h0 hsole (Owner.Reach_runSched sched c0 .refl) hidle hex
 
-/-- No step of `acquire_by`, `release`, `is_available`, `is_locked` depends on the oracle: only the
-evaluation of `has_capacity and is_alive` inside `next_idle_worker` does. -/
+/-- No step of `acquire_by`, `release`, `is_available`, `is_locked`, `call` depends on the oracle: only
+the two steps that return the values of `has_capacity` and `is_alive` inside `next_idle_worker` /
+`idle_workers` do (`cExit`, `iExit` — the refinement of the former single point `uRd`; the lock
+operations of these two methods do not read it either). -/
 theorem C20_release_ignores_liveness (u u' : Owner.Wid → Bool) (W : Owner.Wid → Owner.Worker)
-    (t : Owner.Tid) (cl : Owner.Call) (h : cl.pc ≠ .uRd) :
+    (t : Owner.Tid) (cl : Owner.Call) (h : cl.pc ≠ .cExit) (h' : cl.pc ≠ .iExit) :
     Owner.mstep u W t cl = Owner.mstep u' W t cl :=
-  Owner.mstep_oracle_irrelevant u u' W t cl h
+  Owner.mstep_oracle_irrelevant u u' W t cl h h'
 
 /-- The marker used by `C20_released_on_exit` is set exactly when the `finally: release_all()` has
 released its last worker: the step that leaves the last `release` of a finaliser of `p` makes the
@@ -250,6 +253,119 @@ theorem C20_scripts_end_in_finalize (pw : Owner.Pid → List Owner.Wid) (p : Own
     (Owner.callAndWaitScript pw p).getLast? = some (.finalize p) ∧
     (Owner.asCompletedScript p body).getLast? = some (.finalize p) := by
   simp [Owner.runScript, Owner.callAndWaitScript, Owner.asCompletedScript]
+
+/-! ## Ownership × liveness environment: the LTS the real threads are replayed against
+
+`OwnerEnv` is the product of the ownership LTS with the concurrent registry / heartbeat / transport
+model (registry lock, per-worker pending calls and pings, late / failed deliveries, `die` / `revive` /
+heartbeat sends by environment threads, clock ticks).  The harness drives the real `Worker` /
+`WorkerPool` / `WorkerRegistry` through scheduler-chosen interleavings and compares every step with
+`OwnerEnv.xstep?` (family `sched` of harness/props/c20.py).  The theorems below say that everything
+proved for `Owner` under an arbitrary oracle holds for every execution of this product, and that the
+registry part of the property holds under every schedule. -/
+
+/-- **Refinement.**  Every execution of the product projects to an execution of the ownership LTS: a
+product step is an `Owner` step under the oracle value the environment supplies (the verdicts of
+`has_capacity` / `is_alive`), or a stuttering step (registry-lock steps, environment threads). -/
+theorem C20_sched_refines (pw : Owner.Pid → List Owner.Wid) (x0 x : OwnerEnv.X)
+    (hr : OwnerEnv.XReach pw x0 x) : Owner.Reach pw x0.base x.base :=
+  OwnerEnv.XReach_base hr
+
+/-- **Single owner under every schedule of pool and environment threads.** -/
+theorem C20_sched_single_owner (pw : Owner.Pid → List Owner.Wid) (x0 : OwnerEnv.X) (h0 : Owner.Init x0.base)
+    (ts : List Owner.Tid) (w : Owner.Wid) :
+    let x := OwnerEnv.xrun pw x0 ts
+    (x.base.W w).sl = none → ((x.base.W w).lock = true ↔ (x.base.W w).pool ≠ none) := by
+  intro x hfree
+  exact C20_single_owner pw x0.base x.base h0
+    (OwnerEnv.XReach_base (OwnerEnv.XReach_xrun ts x0 .refl)) w hfree
+
+/-- **Release only owned, under every schedule** (step form): whatever the environment does, a product
+step that takes `w` away from pool `p` is the write of an owner-checked `release` by a thread acting for `p`. -/
+theorem C20_sched_release_only_owned_step (pw : Owner.Pid → List Owner.Wid) (x0 x x' : OwnerEnv.X)
+    (h0 : Owner.Init x0.base) (hrep : Owner.RepairedCfg x0.base) (hr : OwnerEnv.XReach pw x0 x)
+    (t : Owner.Tid) (hs : OwnerEnv.xstep? pw x t = some x')
+    (w : Owner.Wid) (p : Owner.Pid) (hp : (x.base.W w).pool = some p) (hp' : (x'.base.W w).pool ≠ some p) :
+    ∃ cl k, (x.base.T t).cur = some (cl, k) ∧ cl.w = w ∧ cl.p = p ∧ cl.pc = .rWr := by
+  rcases OwnerEnv.xstep_base hs with h1 | ⟨u, h1⟩
+  · rw [h1] at hp'; exact absurd hp hp'
+  · exact C20_release_only_owned_step pw x0.base x.base x'.base h0 hrep (OwnerEnv.XReach_base hr) t u h1 w p hp hp'
+
+/-- **Released on exit, under every schedule of pool and environment threads**: deaths, revivals,
+heartbeats, late or failed replies and clock ticks interleaved anywhere — before, during and after the
+acquisitions, between the body and the `finally`, between two `release` calls of the `finally` — do not
+leave a worker acquired by the pool whose operation has returned. -/
+theorem C20_sched_released_on_exit (pw : Owner.Pid → List Owner.Wid) (p : Owner.Pid) (t : Owner.Tid)
+    (x0 : OwnerEnv.X) (h0 : Owner.Init x0.base)
+    (hsole : ∀ t', t' ≠ t → ∀ op ∈ (x0.base.T t').script, op.pool ≠ p) (ts : List Owner.Tid) :
+    let x := OwnerEnv.xrun pw x0 ts
+    (x.base.T t).cur = none → (x.base.T t).exited = some p → Owner.acquiredWorkers pw x.base.W p = [] := by
+  intro x hidle hex
+  exact C20_released_on_exit pw p t x0.base x.base h0 hsole
+    (OwnerEnv.XReach_base (OwnerEnv.XReach_xrun ts x0 .refl)) hidle hex
+
+/-- **Dead stays dead, under every schedule.**  Once the entry of `a` is dead, along any interleaving of
+pool threads (whose `is_alive` folds finished calls into the registry — `refresh` with the *send* time of
+late replies) and environment threads in which no executed step performs a `register a` (no `revive a`,
+no delivered `heartbeat(a, is_alive=True)`), the entry is still dead and reads 0. -/
+theorem C20_sched_dead_stays_dead (pw : Owner.Pid → List Owner.Wid) (a : Owner.Wid) (x : OwnerEnv.X)
+    (ts : List Owner.Tid) (hdead : x.env.reg a = some none) (hno : OwnerEnv.NoRegister pw a x ts) :
+    let x' := OwnerEnv.xrun pw x ts
+    x'.env.reg a = some none ∧ Registry.get x'.env.reg a = 0 := by
+  intro x'
+  have h := OwnerEnv.xrun_dead a ts x hdead hno
+  exact ⟨h, Registry.get_dead _ _ h⟩
+
+/-- **A dead worker is not reported alive.**  The step of `is_alive` that reads the registry (under the
+registry lock) when the worker's entry is dead records `last = 0`; and from `last = 0` (with the clock
+beyond the threshold) the verdict computed when the lock is released is `False` — whatever calls are
+pending, delivered late, or folded before. -/
+theorem C20_sched_dead_not_alive (pw : Owner.Pid → List Owner.Wid) (x x1 : OwnerEnv.X) (t : Owner.Tid)
+    (cl : Owner.Call) (k : Owner.K) (now0 : Registry.Time)
+    (hcur : (x.base.T t).cur = some (cl, k)) (hpc : cl.pc = .iExit) (hm : x.env.mic t = .getAcq now0)
+    (hdead : x.env.reg cl.w = some none) (hs : OwnerEnv.xstep? pw x t = some x1) :
+    x1.env.mic t = .getRel now0 0 ∧
+    ∀ (y y' : OwnerEnv.X) (cl' : Owner.Call) (k' : Owner.K), (y.base.T t).cur = some (cl', k') → cl'.pc = .iExit →
+      y.env.mic t = .getRel now0 0 → y.env.thr ≤ now0 → OwnerEnv.xstep? pw y t = some y' →
+      y'.env.mic t = .exit false := by
+  refine ⟨?_, ?_⟩
+  · have := (OwnerEnv.xstep_getAcq hcur hpc hm hs).2.1
+    rwa [Registry.get_dead _ _ hdead] at this
+  · intro y y' cl' k' hc' hp' hm' hthr hs'
+    have := (OwnerEnv.xstep_getRel hc' hp' hm' hs').2
+    rwa [Registry.fresh_zero_false _ _ hthr] at this
+
+/-- **Liveness is a function of (last recorded heartbeat, threshold, now), under every schedule.**  The
+value `is_alive` hands to the pool operation is `now₀ - last < thr`, where `last` is what the registry
+recorded for the worker at the moment of the (lock-protected) read and `now₀` the clock read just
+before it: the read step records exactly `get reg w`, the release step turns it into the verdict, and
+the final step of `is_alive` is the `Owner` step `iExit` under exactly that oracle value. -/
+theorem C20_sched_liveness_fn (pw : Owner.Pid → List Owner.Wid) (x x' : OwnerEnv.X) (t : Owner.Tid)
+    (cl : Owner.Call) (k : Owner.K) (hcur : (x.base.T t).cur = some (cl, k)) (hpc : cl.pc = .iExit)
+    (hs : OwnerEnv.xstep? pw x t = some x') :
+    (∀ now0, x.env.mic t = .getAcq now0 → x'.env.mic t = .getRel now0 (Registry.get x.env.reg cl.w)) ∧
+    (∀ now0 last, x.env.mic t = .getRel now0 last → x'.env.mic t = .exit (Registry.fresh now0 last x.env.thr)) ∧
+    (∀ b, x.env.mic t = .exit b → Owner.step? pw (fun _ => b) x.base t = some x'.base) :=
+  ⟨fun _ hm => (OwnerEnv.xstep_getAcq hcur hpc hm hs).2.1,
+   fun _ _ hm => (OwnerEnv.xstep_getRel hcur hpc hm hs).2,
+   fun _ hm => OwnerEnv.xstep_iExit hcur hpc hm hs⟩
+
+/-- **Monotone, under every schedule.**  Along any interleaving in which no executed step performs an
+`unregister a`, a live entry stays live and its recorded heartbeat never moves backwards — late replies
+are folded with their (older) send times, concurrent `revive`s and delivered heartbeats commit in any order. -/
+theorem C20_sched_monotone (pw : Owner.Pid → List Owner.Wid) (a : Owner.Wid) (x : OwnerEnv.X)
+    (ts : List Owner.Tid) (l : Registry.Time) (hlive : x.env.reg a = some (some l))
+    (hno : OwnerEnv.NoUnregister pw a x ts) :
+    ∃ l', (OwnerEnv.xrun pw x ts).env.reg a = some (some l') ∧ l ≤ l' :=
+  OwnerEnv.xrun_mono a ts x l hlive hno
+
+/-- The registry changes only through registry events, each performed under the registry lock by the
+step that acquires it: `refresh` by the fold of `is_alive`, `register` / `unregister` by the
+environment (`revive` / `die`, delivered heartbeats). -/
+theorem C20_sched_registry_events (pw : Owner.Pid → List Owner.Wid) (x x' : OwnerEnv.X) (t : Owner.Tid)
+    (hs : OwnerEnv.xstep? pw x t = some x') :
+    x'.env.reg = Registry.run x.env.reg (OwnerEnv.regEvents x t) :=
+  OwnerEnv.xstep_reg hs
 
 /-! ## Non-vacuity: the hypotheses are satisfiable and the conclusions are reached -/
 
@@ -286,6 +402,34 @@ example : ∃ l', Registry.run (Registry.register Registry.Reg.empty 7 100)
 example : Registry.get (Registry.run (Registry.unregister (Registry.register Registry.Reg.empty 7 100) 7)
     [.refresh 7 500, .refresh 7 900, .register 3 1000]) 7 = 0 :=
   (C20_dead_stays_dead _ 7 _ (by decide)).2.1
+
+
+/-! product: thread 0 = `next_idle_worker(maybe_acquire=True)` then the finaliser for pool 0 over worker 0,
+thread 1 = environment `[die 0, send 0 alive, deliver 0, revive 0]`; clock 1000, threshold 100, worker 0 registered -/
+open OwnerEnv in
+def xcfg : X :=
+  ⟨⟨fun _ => {}, fun t => if t = 0 then { script := [.nextIdle 0 [0] true, .finalize 0] } else {}⟩,
+   { reg := fun a => if a = 0 then some (some 1000) else none, now := 1000, thr := 100,
+     escript := fun t => if t = 1 then [.die 0, .send 0 true, .deliver 0 false, .revive 0] else [] }⟩
+def pw1 : Pid → List Wid := fun _ => [0]
+
+example : Init xcfg.base := by
+  refine ⟨fun _ => rfl, fun t => ?_⟩
+  by_cases h0 : t = 0 <;> simp [xcfg, h0]
+
+set_option maxRecDepth 4000 in
+/-- the environment pronounces worker 0 dead (3 steps of thread 1); thread 0 then acquires it, finds it has
+capacity but is not alive, pings it, returns `None`; its finaliser releases the worker (tests by evaluation) -/
+example : (OwnerEnv.xrun pw1 xcfg [1, 1, 1]).env.reg 0 = some none := by decide
+set_option maxRecDepth 8000 in
+example : ((OwnerEnv.xrun pw1 xcfg ([1, 1, 1] ++ List.replicate 17 0)).base.T 0).results = [.worker none] := by decide
+set_option maxRecDepth 8000 in
+example : ((OwnerEnv.xrun pw1 xcfg ([1, 1, 1] ++ List.replicate 17 0)).base.W 0).pool = some 0 := by decide
+set_option maxRecDepth 8000 in
+example : ((OwnerEnv.xrun pw1 xcfg ([1, 1, 1] ++ List.replicate 40 0)).base.T 0).exited = some 0 := by decide
+/-- no step of that schedule registers worker 0 (hypothesis of `C20_sched_dead_stays_dead`) -/
+example : OwnerEnv.NoRegister pw1 0 (OwnerEnv.xrun pw1 xcfg [1, 1, 1]) [0, 0, 0, 1] := by
+  simp only [OwnerEnv.NoRegister]; decide
 
 end NonVacuity
 
